@@ -141,11 +141,11 @@ def run_many(reqs, workers=8):
     chunks = [reqs[i::n] for i in range(n)]
     with cf.ThreadPoolExecutor(n) as ex:
         res = list(ex.map(vlib.run_programs, chunks))
-    answers = [None] * len(reqs)
-    for ci, ch in enumerate(res):
-        for j, a in enumerate(ch):
-            answers[ci + j * n] = a
-    return answers
+    byid = {}
+    for ch in res:
+        for a in ch:
+            byid[a.get("id")] = a
+    return [byid.get(r["id"], {"id": r["id"], "outcome": "fatal", "diags": [], "stdout": "", "panic": "no answer"}) for r in reqs]
 
 
 def elk_verdict(ans):
@@ -153,6 +153,8 @@ def elk_verdict(ans):
     fails = [d["msg"] for d in ans.get("diags", []) if d.get("sev", "").upper().startswith("FAIL")]
     if ans["outcome"] == "panic":
         return "panic:" + ans.get("panic", "")[:100]
+    if ans["outcome"] in ("timeout", "fatal"):
+        return "other:" + ans["outcome"]
     if not ans.get("rejected"):
         return "accepted"
     if all("must be caught" in m for m in fails) and fails:
@@ -164,13 +166,13 @@ def check_cov(ctx, lines):
     parsed = [parse_cov(l) for l in lines]
     model = vlib.run_model(lines)
     # 1. the checker's verdict
-    reqs = [{"id": "C%d" % i, "src": catch_program("PC%d" % i, env, cases, ty, []), "mode": "check"}
+    reqs = [{"id": "C%d" % i, "src": catch_program("PC%d" % i, env, cases, ty, []), "mode": "check", "timeout_ms": 30000}
             for i, (cfg, env, cases, ty) in enumerate(parsed)]
     verdicts = [elk_verdict(a) for a in run_many(reqs)]
     # 2. run every accepted one on the sample values of the thrown type
     run_idx = [i for i, v in enumerate(verdicts) if v == "accepted"]
     reqs = [{"id": "D%d" % i, "src": catch_program("PD%d" % i, parsed[i][1], parsed[i][2], parsed[i][3], values_of(parsed[i][3])),
-             "timeout_ms": 10000} for i in run_idx]
+             "timeout_ms": 30000} for i in run_idx]
     runs = dict(zip(run_idx, run_many(reqs)))
     ok = True
     other = 0
@@ -191,6 +193,9 @@ def check_cov(ctx, lines):
             continue
         if vd == "accepted":
             a = runs[i]
+            if a["outcome"] in ("timeout", "fatal", "rejected"):
+                other += 1      # machine load, not a verdict
+                continue
             chunks = a["stdout"].split("@@\n")[1:]
             got = [c.strip() for c in chunks]
             bad = None
